@@ -528,6 +528,7 @@ def run(ctx):
     r12.need(6)
 
     radix_overflow_fallback(ctx)
+    division_step_convention(ctx)
 
 
 INT_ERROR_KINDS = ['Empty', 'InvalidDigit', 'PosOverflow', 'NegOverflow', 'Zero']     # core::num::IntErrorKind, declaration order
@@ -627,3 +628,60 @@ def radix_overflow_fallback(ctx):
         else:
             r13.inst({'machine_parser_reports': k, 'outcomes': sorted(evs)}, ok=True, kind=k)
     r13.need(5)
+
+
+def division_step_convention(ctx):
+    """R14.14: a positional-digit loop takes n = q*b + r apart step by step.  The remainder operator of the integers is *floored*
+    (R14.4) while `/` truncates, so `r = n % b; n = n / b` satisfies n = q*b + r only when the signs agree.  Wherever an int native
+    applies Rem and Div to the same dividend, the pair is consistent: the quotient is div_floor (the partner of the floored
+    remainder), or the division is exact because its dividend is `n - r` with r the remainder just taken."""
+    from .lib.facts import callee_name
+    from .lib import guards
+    mir = ctx.mir
+    r14 = ctx.rule('R14.14', 'the quotient and the remainder of one division step follow the same rounding convention')
+    n = 0
+    for b in mir.bodies:
+        if b.file != 'src/builtin/int.rs':
+            continue
+        rems = [(bb, t) for bb, t in b.calls() if re.search(r'LazyBigint as std::ops::Rem(<[^>]*>)?>::rem$', callee_name(t) or '')]
+        divs = [(bb, t) for bb, t in b.calls() if re.search(r'LazyBigint as std::ops::Div(<[^>]*>)?>::div$', callee_name(t) or '')]
+        if not rems or not divs:
+            continue
+
+        def root(op):
+            p = op_place(op)
+            if p is None:
+                return None
+            cur = p['l']
+            for _ in range(8):
+                cur = guards.root_local(b, cur)
+                ds = b.defs().get(cur, [])
+                # through clone() / into_owned() / as_ref() / deref()
+                if len(ds) == 1 and ds[0][0] == 'call' and re.search(r'::(clone|into_owned|as_ref|deref|borrow|to_owned)$', strip_generics(callee_name(ds[0][3]) or '')) and ds[0][3]['args']:
+                    q = op_place(ds[0][3]['args'][0])
+                    if q is None:
+                        break
+                    cur = q['l']
+                    continue
+                if len(ds) == 1 and ds[0][0] == 'stmt' and ds[0][3]['rv']['k'] == 'ref':
+                    cur = ds[0][3]['rv']['place']['l']
+                    continue
+                break
+            return cur
+        for dbb, dt in divs:
+            dividend = root(dt['args'][0])
+            for rbb, rt_ in rems:
+                if root(rt_['args'][0]) != dividend:
+                    continue
+                n += 1
+                fn = strip_generics(mir.enclosing_fn(b)) if b.kind == 'closure' else b.nid
+                r14.inst({'fn': fn, 'remainder': mirq.site(b, rbb), 'quotient': mirq.site(b, dbb), 'consistent': False}, ok=False, kind=(b.nid, rbb, dbb))
+                r14.fail('%s/floored-remainder-with-truncated-quotient' % fn.split('::')[-1], mirq.site(b, dbb), 'the same number is reduced by `%%` (floored) and `/` (truncating): n = q*b + r fails when n and b have different signs, so the digits do not denote the number (digits(-15) = [5, 9], digits(5, -2) = [-1, 0, -1])')
+        # the consistent forms, counted as instances: an exact division of (n - r), or div_floor
+        for dbb, dt in divs:
+            p = op_place(dt['args'][0])
+            ds = b.defs().get(guards.root_local(b, p['l']), []) if p is not None else []
+            if len(ds) == 1 and ds[0][0] == 'call' and re.search(r'LazyBigint as std::ops::Sub(<[^>]*>)?>::sub$', callee_name(ds[0][3]) or ''):
+                n += 1
+                r14.inst({'fn': b.nid, 'quotient': mirq.site(b, dbb), 'form': 'exact division of n - r'}, ok=True, kind=(b.nid, 'exact', dbb))
+    r14.need(1)
